@@ -557,6 +557,18 @@ func buildItems(tr tiers, seed uint64) []item {
 			items = append(items, item{src: p.Src, in: in, varNames: p.VarNames, varVals: p.VarVals, origin: p.Origin})
 		}
 	}
+	// token-level mutants of the corpus programs
+	mr := kernel.NewRand(kernel.Mix(seed, 4, 4))
+	for k := 0; k < tr.Gen/4; k++ {
+		p := corpus[mr.Intn(len(corpus))]
+		if !workload.Deterministic(p.Src) || len(p.Inputs) == 0 {
+			continue
+		}
+		m := workload.MutateProgram(mr, p.Src)
+		if workload.Deterministic(m) {
+			items = append(items, item{src: m, in: p.Inputs[0], varNames: p.VarNames, varVals: p.VarVals, origin: "corpus-mutant"})
+		}
+	}
 	g := workload.NewGen(kernel.Mix(seed, 4, 1))
 	g.Bias = "opt"
 	for i := 0; i < tr.Gen; i++ {
